@@ -221,6 +221,10 @@ def _describe_model(eng, model, pre):
             return d
         return v.kind
     out = {}
+    from .spec import TK, REPK
+    for nm, v in pre.env.items():
+        if v.kind == "any":
+            out.setdefault("$any", {})[nm] = {"to_key": val(TK(v.z)), "key_ok": val(REPK(v.z))}
     for nm, v in pre.env.items():
         try:
             out[nm] = dump(v)
